@@ -11,6 +11,7 @@
 package db
 
 import (
+	"container/heap"
 	"container/list"
 	"context"
 	"fmt"
@@ -191,8 +192,42 @@ func newMergeTarget() mergeTarget {
 	}
 }
 
+// compositeWalkItem is a block visited while looking for the composites that still need to be merged.
+type compositeWalkItem struct {
+	cid   cid.Cid
+	block *coreblock.Block
+	// merged is true if the block is one of the current heads or an ancestor of one of them.
+	merged bool
+	// incoming is true if the block is the block being merged or an ancestor of it.
+	incoming bool
+}
+
+// compositeWalkQueue orders the visited blocks by descending height.
+type compositeWalkQueue []*compositeWalkItem
+
+func (q compositeWalkQueue) Len() int { return len(q) }
+func (q compositeWalkQueue) Less(i, j int) bool {
+	return q[i].block.Delta.GetPriority() > q[j].block.Delta.GetPriority()
+}
+func (q compositeWalkQueue) Swap(i, j int) { q[i], q[j] = q[j], q[i] }
+func (q *compositeWalkQueue) Push(x any)   { *q = append(*q, x.(*compositeWalkItem)) }
+func (q *compositeWalkQueue) Pop() any {
+	old := *q
+	n := len(old)
+	item := old[n-1]
+	old[n-1] = nil
+	*q = old[:n-1]
+	return item
+}
+
 // loadComposites retrieves and stores into the merge processor the composite blocks for the given
-// CID until it reaches a block that has already been merged or until we reach the genesis block.
+// CID that have not been merged yet, i.e. the given block and those of its ancestors that are neither
+// one of the current heads (merge target) nor an ancestor of one of them.
+//
+// The heads of the merge target are not necessarily at the same height, and the new block might have
+// branched off from an older block. The DAG of the new block and the already merged DAG are therefore
+// walked back together in descending order of height. As the height of a block is always greater than
+// the height of its parents, it is known whether a block is already merged by the time it is visited.
 func (mp *mergeProcessor) loadComposites(
 	ctx context.Context,
 	blockCid cid.Cid,
@@ -213,37 +248,61 @@ func (mp *mergeProcessor) loadComposites(
 		return err
 	}
 
-	// In the simplest case, the new block or its children will link to the current head/heads (merge target)
-	// of the composite DAG. However, the new block and its children might have branched off from an older block.
-	// In this case, we also need to walk back the merge target's DAG until we reach a common block.
-	if block.Delta.GetPriority() >= mt.headHeight {
-		mp.composites.PushFront(block)
-		for _, head := range block.Heads {
-			err := mp.loadComposites(ctx, head.Cid, mt)
-			if err != nil {
-				return err
-			}
-		}
-	} else {
-		newMT := newMergeTarget()
-		for _, b := range mt.heads {
-			for _, link := range b.Heads {
-				nd, err := mp.blockLS.Load(linking.LinkContext{Ctx: ctx}, link, coreblock.BlockSchemaPrototype)
-				if err != nil {
-					return err
-				}
+	visited := make(map[cid.Cid]*compositeWalkItem, len(mt.heads)+1)
+	queue := &compositeWalkQueue{}
+	// pending is the number of queued blocks that are, as far as is known, still to be merged.
+	pending := 0
 
-				childBlock, err := coreblock.GetFromNode(nd)
-				if err != nil {
-					return err
-				}
-
-				newMT.heads[link.Cid] = childBlock
-				newMT.headHeight = childBlock.Delta.GetPriority()
-			}
-		}
-		return mp.loadComposites(ctx, blockCid, newMT)
+	for headCid, headBlock := range mt.heads {
+		item := &compositeWalkItem{cid: headCid, block: headBlock, merged: true}
+		visited[headCid] = item
+		heap.Push(queue, item)
 	}
+
+	item := &compositeWalkItem{cid: blockCid, block: block, incoming: true}
+	visited[blockCid] = item
+	heap.Push(queue, item)
+	pending++
+
+	for pending > 0 && queue.Len() > 0 {
+		item := heap.Pop(queue).(*compositeWalkItem)
+		if !item.merged {
+			pending--
+			mp.composites.PushFront(item.block)
+		}
+
+		for _, head := range item.block.Heads {
+			parent, ok := visited[head.Cid]
+			if !ok {
+				nd, err := mp.blockLS.Load(linking.LinkContext{Ctx: ctx}, head, coreblock.BlockSchemaPrototype)
+				if err != nil {
+					return err
+				}
+
+				parentBlock, err := coreblock.GetFromNode(nd)
+				if err != nil {
+					return err
+				}
+
+				parent = &compositeWalkItem{cid: head.Cid, block: parentBlock}
+				visited[head.Cid] = parent
+				heap.Push(queue, parent)
+			}
+
+			if item.merged {
+				if parent.incoming && !parent.merged {
+					pending--
+				}
+				parent.merged = true
+			} else if !parent.incoming {
+				parent.incoming = true
+				if !parent.merged {
+					pending++
+				}
+			}
+		}
+	}
+
 	return nil
 }
 
